@@ -41,6 +41,12 @@ Inductive req :=
 | Create (n : positive) (s : qspec)
 | Update (n : positive) (s : qspec)        (* qalloc of s is ignored: the status is kept *)
 | Delete (n : positive)
+| DeleteFin (n : positive)                (* DELETE of a queue that carries a finalizer: validated like DELETE;
+                                             when admitted the object stays in the set as TERMINATING
+                                             (deletionTimestamp set) until the finalizer is removed.  No code
+                                             under C10 reads the deletionTimestamp, so the flag is not modelled *)
+| EnvGone (n : positive)                  (* the finalizer is removed: the object disappears (modelled for a queue
+                                             that has no children and is neither root nor default) *)
 | EnvStatus (n : positive) (a st : Z).     (* status update by the scheduler / queue controller, not an
                                               admission request: allocated pods := a, state := st,
                                               a negative value leaving the field as it is *)
@@ -336,7 +342,8 @@ Definition verdict_of (c : cfg) (Q : queues) (r : req) : verdict :=
   match r with
   | Create n s => admit_cu c Q n s None
   | Update n s => match Q !! n with None => VNotInvoked | Some o => admit_cu c Q n s (Some o) end
-  | Delete n => admit_delete c Q n
+  | Delete n | DeleteFin n => admit_delete c Q n
+  | EnvGone n => match Q !! n with None => VNotInvoked | Some _ => VAllowed end
   | EnvStatus n a st => match Q !! n with None => VNotInvoked | Some _ => VAllowed end
   end.
 
@@ -347,6 +354,10 @@ Definition apply_req (Q : queues) (r : req) : queues :=
   | Create n s => match Q !! n with None => <[n := with_status 0 0 s]> Q | Some _ => Q end
   | Update n s => match Q !! n with None => Q | Some o => <[n := with_status (qalloc o) (qstate o) s]> Q end
   | Delete n => delete n Q
+  | DeleteFin n => Q
+  | EnvGone n =>
+    if bool_decide (children_of Q n = []) && negb (bool_decide (n = root)) && negb (bool_decide (n = default_q))
+    then delete n Q else Q
   | EnvStatus n a st =>
     match Q !! n with
     | None => Q
